@@ -18,7 +18,8 @@ Definition C07_statement : Prop :=
   /\ (forall w t atc old new, okv t new -> val_eqb (y_hostvar_write w t atc old new) (g_var_write new) = true)
   /\ (forall f vp np na, y_method_outcome f vp np na = None)
   /\ (forall p sm q, y_host_sees p sm q = g_host_sees sm q)
-  /\ (forall f over del methods, y_dispatch f over del methods = g_dispatch over del methods).
+  /\ (forall f over del methods, y_dispatch f over del methods = g_dispatch over del methods)
+  /\ (forall h, y_session true h = g_session h).
 
 (** One value, both directions: what the script reads of a host value is the value; what the host
     reads of a script value is the value (functions: the same graph). Induction over nested graphs. *)
@@ -136,6 +137,18 @@ Theorem C07_embedded_side_condition_inhabited :
 Proof. exact embed_side_inhabited. Qed.
 Print Assumptions C07_embedded_side_condition_inhabited.
 
+(** A function value kept by the host: for all histories of evaluations (succeeding, panicking,
+    failing to compile, cancelled) and native calls, every native call gives the function's results —
+    provided no call falls between a cancellation and the next evaluation that reaches Execute. *)
+Theorem C07_session_partial :
+  forall h live, guarded live h = true -> y_session live h = g_session h.
+Proof. exact session_agree. Qed.
+Print Assumptions C07_session_partial.
+
+Theorem C07_session_side_condition_inhabited : guarded true h_ok = true /\ y_session true h_ok = [OOk; OOk; OOk].
+Proof. exact guarded_inhabited. Qed.
+Print Assumptions C07_session_side_condition_inhabited.
+
 (** Refutations of the full statement on the faithful model (each replayed on the implementation). *)
 Theorem C07_variadic_empty_refuted :
   y_bind S2H cx0 ins_v true MInd [VStr (s "a")] = [VStr (s "a"); VSlice []]
@@ -235,3 +248,8 @@ Theorem C07_embedded_first_by_value_refuted :
   /\ g_dispatch [] false [s "Read"] = ([WHost], false).
 Proof. exact embedded_first_by_value_refuted. Qed.
 Print Assumptions C07_embedded_first_by_value_refuted.
+
+Theorem C07_after_cancel_before_eval_refuted :
+  y_session true h_dead = [OOk; OZero; OZero; OOk] /\ g_session h_dead = [OOk; OOk; OOk; OOk].
+Proof. exact after_cancel_before_eval_refuted. Qed.
+Print Assumptions C07_after_cancel_before_eval_refuted.
